@@ -55,10 +55,11 @@ type monitor struct {
 	lastRun   int
 	problem   string
 	abstract  []string // projection to the model's event alphabet
+	lastEv    map[int]string
 }
 
 func newMonitor(G int) *monitor {
-	return &monitor{G: G, written: map[int]bool{}, writing: map[int]int{}, linksDone: map[int]bool{}, purged: map[int]bool{}, lastRun: -1}
+	return &monitor{G: G, written: map[int]bool{}, writing: map[int]int{}, linksDone: map[int]bool{}, purged: map[int]bool{}, lastRun: -1, lastEv: map[int]string{}}
 }
 
 func (m *monitor) fail(s string) {
@@ -68,6 +69,9 @@ func (m *monitor) fail(s string) {
 }
 
 func (m *monitor) event(e vrt.Event) {
+	if e.Op == vrt.OpRecv {
+		m.lastEv[e.Thread] = "" // a new token receipt starts a new purge batch
+	}
 	if e.Op != vrt.OpProbe {
 		return
 	}
@@ -82,7 +86,7 @@ func (m *monitor) event(e vrt.Event) {
 		m.abstract = append(m.abstract, fmt.Sprintf("run%d", g))
 	case "finalWait":
 		m.linksDone[m.G-1] = true
-		m.abstract = append(m.abstract, "finalwait")
+		_ = g
 	case "writeGeneration":
 		m.writing[g]++
 		if m.writing[g] > 1 {
@@ -91,10 +95,10 @@ func (m *monitor) event(e vrt.Event) {
 		if m.purged[g] {
 			m.fail(fmt.Sprintf("M2/write-after-purge: writeGeneration(%d) after generation %d was purged", g, g))
 		}
-		m.abstract = append(m.abstract, fmt.Sprintf("writebegin%d", g))
+		m.abstract = append(m.abstract, fmt.Sprintf("wb%d", g))
 	case "writeGeneration.exit":
 		m.written[g] = true
-		m.abstract = append(m.abstract, fmt.Sprintf("writeend%d", g))
+		m.abstract = append(m.abstract, fmt.Sprintf("we%d", g))
 	case "PurgeGeneration":
 		if !m.written[g] {
 			m.fail(fmt.Sprintf("M1/purge-before-write: generation %d purged before it was written", g))
@@ -102,8 +106,9 @@ func (m *monitor) event(e vrt.Event) {
 		if !m.linksDone[g] {
 			m.fail(fmt.Sprintf("M1/purge-before-links: generation %d purged before its outgoing links were applied", g))
 		}
-		if !m.purged[g] {
-			m.abstract = append(m.abstract, fmt.Sprintf("purge%d", g))
+		if ev := fmt.Sprintf("purge%d", g); m.lastEv[e.Thread] != ev {
+			m.lastEv[e.Thread] = ev // one model event per token receipt (the code purges once per model type)
+			m.abstract = append(m.abstract, ev)
 		}
 		m.purged[g] = true
 	case "GetGeneration":
@@ -209,7 +214,18 @@ func clsGraph(g *graph) string {
 // runGraph: mode "default" = the default schedule only; otherwise explore with the preemption bound.
 var maxExec = 150000
 
-func runGraphShard(g *graph, bound, shard int, r *vf.Rec) { runGraphX(g, bound, true, shard, r, nil) }
+func runGraphShard(g *graph, bound, shard int, r *vf.Rec) {
+	var traces [][]string
+	runGraphX(g, bound, true, shard, r, &traces)
+}
+
+func hashEdge(G int, e string) uint64 {
+	h := uint64(1469598103934665603) ^ uint64(G)
+	for i := 0; i < len(e); i++ {
+		h = (h ^ uint64(e[i])) * 1099511628211
+	}
+	return h
+}
 
 func runGraph(g *graph, bound int, explore bool, r *vf.Rec, traces *[][]string) {
 	runGraphX(g, bound, explore, 0, r, traces)
@@ -246,6 +262,25 @@ func runGraphX(g *graph, bound int, explore bool, shard int, r *vf.Rec, traces *
 	r.Count("horizon_hits", int64(st.HorizonHits))
 	if !st.Complete {
 		r.Count("explorations_cut_by_cap_or_horizon", 1)
+	}
+	if traces != nil {
+		// conformance, impl within model: every recorded abstract trace must be a path of TLC's state graph
+		if mg, err := modelGraph(g.G); err != nil {
+			r.Failf("C07/tla/no-state-graph", nil, "G=%d: %v", g.G, err)
+		} else {
+			used := map[string]bool{}
+			for _, tr := range *traces {
+				r.Count("impl_traces_checked_against_model", 1)
+				if at := mg.accepts(tr, used); at >= 0 {
+					r.Failf(fmt.Sprintf("C07/tla/implementation-trace-not-in-model/G=%d", g.G), map[string]interface{}{"graph": g.String(), "trace": tr, "rejected_at": at, "event": tr[at]},
+						"the real ow-sim produced the event trace %v; the TLA+ model cannot follow it at event %d (%s): the model is wrong or the protocol changed", tr, at, tr[at])
+					break
+				}
+			}
+			for e := range used {
+				r.State(hashEdge(g.G, e))
+			}
+		}
 	}
 	r.Note(fmt.Sprintf("explore/shard%d/", shard)+g.String(), fmt.Sprintf("schedules=%d threads=%d bound=%d complete=%v outcomes=%d horizon_hits=%d", st.Executions, st.MaxThreads, bound, st.Complete, len(st.Outcomes), st.HorizonHits))
 	for kind, p := range st.Problems {
